@@ -23,6 +23,10 @@ down, coming up and dropping connections, over arbitrary ids, streams, destinati
 * `id_taken_verbatim`        every id string ≠ "deleteAll" (blank/slash/case variants of it too) is stored under
                              exactly itself, all other ids untouched; `delete_taken_verbatim` likewise for delete
 * `no_orphans`               the ghost observation printed by the driver is always empty
+* `cancelled_never_dials`    a generation whose context was cancelled opens no connection because of any later operation
+                             (its destination coming up / dropping, time passing, ...); `superseded_never_connects` is the
+                             history form; `accepts_count_dials` ties the per-destination accept counter to `dials`;
+                             `idle_is_silent`: time passing changes nothing
 -/
 
 namespace Rwc
@@ -263,6 +267,7 @@ theorem step_core_env (s : St) (op : Op)
   | down d => simp only [step]; split <;> simp
   | up d => simp only [step]; split <;> simp
   | drop d => simp only [step]; split <;> simp
+  | idle => simp [step]
 
 theorem step_inv (s : St) (op : Op) (h : Inv s) : Inv (step s op) := by
   cases op with
@@ -289,6 +294,7 @@ theorem step_inv (s : St) (op : Op) (h : Inv s) : Inv (step s op) := by
   | drop x =>
     obtain ⟨a, b, c, d, _⟩ := step_core_env s (.drop x) ⟨by intros; simp, by intros; simp⟩
     exact inv_of_core_eq h a b c d
+  | idle => exact h
 
 theorem run_inv (ops : List Op) (s : St) (h : Inv s) : Inv (run ops s) := by
   unfold run
@@ -374,6 +380,7 @@ theorem step_refines (s : St) (op : Op) (id : String) :
   | down d => simp only [step, specStep]; split <;> rfl
   | up d => simp only [step, specStep]; split <;> rfl
   | drop d => simp only [step, specStep]; split <;> rfl
+  | idle => rfl
 
 theorem run_refines (ops : List Op) (s : St) (id : String) :
     view (run ops s) id = spec id ops (view s id) := by
@@ -412,6 +419,7 @@ theorem step_untouched (s : St) (op : Op) (i : String) (h : touches i op = false
   | down d => simp only [step]; split <;> exact ⟨rfl, rfl⟩
   | up d => simp only [step]; split <;> exact ⟨rfl, rfl⟩
   | drop d => simp only [step]; split <;> exact ⟨rfl, rfl⟩
+  | idle => exact ⟨rfl, rfl⟩
 
 theorem run_untouched (ops : List Op) (s : St) (i : String) (h : ∀ op ∈ ops, touches i op = false) :
     lookup (run ops s).clients i = lookup s.clients i ∧ lookup (run ops s).rules i = lookup s.rules i := by
@@ -494,6 +502,7 @@ theorem deliveriesCl_live (s : St) (nd : NoDupKeys s.clients) (op : Op) (c : Cl)
   | down _ => simp [deliveriesCl] at h
   | up _ => simp [deliveriesCl] at h
   | drop _ => simp [deliveriesCl] at h
+  | idle => simp [deliveriesCl] at h
 
 theorem deliveries_live (s : St) (nd : NoDupKeys s.clients) (op : Op) (g : Gen)
     (h : g ∈ deliveries s op) : ∃ id c, lookup s.clients id = some c ∧ c.gen = g := by
@@ -518,6 +527,7 @@ theorem step_cancelled_mono (s : St) (op : Op) (g : Gen) (h : g ∈ s.cancelled)
   | down d => simp only [step]; split <;> exact h
   | up d => simp only [step]; split <;> exact h
   | drop d => simp only [step]; split <;> exact h
+  | idle => exact h
 
 theorem run_cancelled_mono (ops : List Op) (s : St) (g : Gen) (h : g ∈ s.cancelled) :
     g ∈ (run ops s).cancelled := by
@@ -597,6 +607,7 @@ theorem step_cfg (s : St) (op : Op) : (step s op).cfg = s.cfg := by
   | down d => simp only [step]; split <;> rfl
   | up d => simp only [step]; split <;> rfl
   | drop d => simp only [step]; split <;> rfl
+  | idle => rfl
 
 theorem mem_delivered_live (s : St) (hI : Inv s) (j : String) (c : Cl) (hl : lookup s.clients j = some c)
     (topic : String) (snd : Option Dest) :
@@ -675,6 +686,7 @@ theorem spec_rule (id : String) (ops : List Op) (c : Cell) :
     | down d => rfl
     | up d => rfl
     | drop d => rfl
+    | idle => rfl
 
 /-- **C16 `listing_exact`**: for every history and id, the rule listed for the id is the one given by
     the latest accepted add of that id unless its delete or a deleteAll came later ("added − deleted");
@@ -749,6 +761,165 @@ theorem delete_taken_verbatim (cfg : KV (List String)) (ops : List Op) (i : Stri
       exact ⟨fun h => hj h.symm, hi⟩)
     exact ⟨h.2, h.1⟩
 
+/-! ### (6) who dials: a generation that was told to stop never opens a connection again -/
+
+theorem mem_clientsOn (s : St) (nd : NoDupKeys s.clients) (d : Dest) (c : Cl) :
+    c ∈ clientsOn s d ↔ (∃ id, lookup s.clients id = some c) ∧ c.dest = d := by
+  unfold clientsOn
+  rw [List.mem_map]
+  constructor
+  · rintro ⟨⟨id, c'⟩, hm, e⟩
+    simp only at e
+    subst e
+    rw [List.mem_filter] at hm
+    exact ⟨⟨id, lookup_of_mem _ _ _ nd hm.1⟩, by simpa using hm.2⟩
+  · rintro ⟨⟨id, hl⟩, hd⟩
+    exact ⟨(id, c), List.mem_filter.mpr ⟨mem_of_lookup _ _ _ hl, by simpa using hd⟩, rfl⟩
+
+/-- whoever dials because of `op` is a live client of the state, or the generation `op` creates -/
+theorem dials_live_or_new (s : St) (nd : NoDupKeys s.clients) (op : Op) (c : Cl) (h : c ∈ dials s op) :
+    (∃ id, lookup s.clients id = some c) ∨ c.gen = s.nextGen := by
+  cases op with
+  | add id st d =>
+    simp only [dials] at h
+    split at h
+    · simp at h
+    · split at h
+      · simp at h; subst h; exact Or.inr rfl
+      · simp at h
+  | up d =>
+    simp only [dials] at h
+    split at h
+    · exact Or.inl ((mem_clientsOn s nd d c).mp h).1
+    · simp at h
+  | drop d =>
+    simp only [dials] at h
+    split at h
+    · exact Or.inl ((mem_clientsOn s nd d c).mp h).1
+    · simp at h
+  | delete _ => simp [dials] at h
+  | bcast _ _ => simp [dials] at h
+  | inject _ => simp [dials] at h
+  | down _ => simp [dials] at h
+  | idle => simp [dials] at h
+
+theorem inv_not_dials (s : St) (hI : Inv s) (op : Op) (g : Gen) (hg : g ∈ s.cancelled) :
+    g ∉ (dials s op).map (·.gen) := by
+  intro hm
+  obtain ⟨c, hc, e⟩ := List.mem_map.mp hm
+  rcases dials_live_or_new s hI.ndc op c hc with ⟨id, hl⟩ | hn
+  · exact hI.liveNC id c hl (e ▸ hg)
+  · have hlt : g < s.nextGen := hI.cancLt g hg
+    rw [← e, hn] at hlt
+    exact Nat.lt_irrefl _ hlt
+
+/-- **C16 `cancelled_never_dials`**: after every history, a generation whose context has been cancelled
+    (its rule was replaced, deleted, or removed by a delete-all) is not among those that open a
+    connection because of the next operation, WHATEVER that operation is: its old destination
+    coming up again, dropping its connections, a new rule for the same or another id and the same
+    destination, or real time passing (`idle`: the back-off sleep it was in runs out). -/
+theorem cancelled_never_dials (cfg : KV (List String)) (ops : List Op) (op : Op) (g : Gen)
+    (hg : g ∈ (run ops (start cfg)).cancelled) : g ∉ (dials (run ops (start cfg)) op).map (·.gen) :=
+  inv_not_dials _ (inv_run cfg ops) op g hg
+
+/-- **C16 `superseded_never_connects`** (history form): let `c` be the live client of id `i` after `pre`
+    and let `op` replace / delete / delete-all it.  Then `c`'s generation opens no connection because of
+    `op` itself, and after ANY further operations `post` -- its destination going down and up any number
+    of times, time passing, other rules coming and going -- it opens no connection because of the next
+    operation `b` either.  (With `accepts_count_dials`: the connections a destination accepts are those
+    of generations in force at the time.) -/
+theorem superseded_never_connects (cfg : KV (List String)) (pre post : List Op) (op b : Op) (i : String) (c : Cl)
+    (hlive : lookup (run pre (start cfg)).clients i = some c) (hop : Supersedes op i) :
+    c.gen ∉ (dials (run pre (start cfg)) op).map (·.gen) ∧
+    c.gen ∉ (dials (run (pre ++ op :: post) (start cfg)) b).map (·.gen) := by
+  have hIp : Inv (run pre (start cfg)) := inv_run cfg pre
+  constructor
+  · intro hm
+    obtain ⟨c', hc', e⟩ := List.mem_map.mp hm
+    have hlt := hIp.fresh i c hlive
+    rcases hop with ⟨st, d, eo, hi⟩ | eo | eo
+    · subst eo
+      simp only [dials, hi, if_false] at hc'
+      split at hc'
+      · simp at hc'; subst hc'; simp only at e
+        rw [← e] at hlt
+        exact Nat.lt_irrefl _ hlt
+      · simp at hc'
+    · subst eo; simp [dials] at hc'
+    · subst eo; simp [dials] at hc'
+  · exact cancelled_never_dials cfg _ b _ (nothing_after_supersede cfg pre post op b i c hlive hop).2.2
+
+theorem getD_bump (m : KV Nat) (d d' : Dest) (n : Nat) :
+    (lookup (bump m d n) d').getD 0 = (lookup m d').getD 0 + (if d' = d then n else 0) := by
+  unfold bump
+  by_cases hn : n = 0
+  · simp [hn]
+  · simp only [hn, if_false]
+    by_cases hd : d' = d
+    · subst hd; simp
+    · rw [lookup_insert_ne _ _ (Ne.symm hd)]; simp [hd]
+
+theorem clientsOn_length (s : St) (d : Dest) : (clientsOn s d).length = liveOn s d := by
+  simp [clientsOn, liveOn]
+
+theorem clientsOn_filter (s : St) (d d' : Dest) :
+    ((clientsOn s d).filter (fun c => c.dest == d')).length = if d' = d then liveOn s d else 0 := by
+  unfold clientsOn liveOn
+  rw [List.filter_map, List.length_map, List.filter_filter]
+  by_cases hd : d' = d
+  · subst hd
+    simp only [if_true]
+    congr 1
+    apply List.filter_congr
+    intro p _
+    simp [Function.comp]
+  · simp only [hd, if_false, List.length_eq_zero_iff, List.filter_eq_nil_iff]
+    intro p _
+    simp only [Function.comp, Bool.and_eq_true, beq_iff_eq, not_and]
+    intro h1 h2
+    exact hd (h1 ▸ h2 ▸ rfl)
+
+/-- **C16 `accepts_count_dials`**: the number of connections a destination has accepted -- the ghost
+    counter the driver prints and the correspondence run compares with what the recording destination
+    servers counted -- grows with every operation by exactly the number of `dials` to it. -/
+theorem accepts_count_dials (s : St) (op : Op) (d : Dest) :
+    (lookup (step s op).accepts d).getD 0 =
+      (lookup s.accepts d).getD 0 + ((dials s op).filter (fun c => c.dest == d)).length := by
+  cases op with
+  | add id st x =>
+    simp only [step, dials]
+    by_cases hid : id = reserved
+    · simp [hid]
+    · simp only [hid, if_false]
+      by_cases hu : isUp s x = true
+      · simp only [hu, if_true, getD_bump]
+        by_cases hd : d = x
+        · subst hd; simp
+        · have : ¬ x = d := fun e => hd e.symm
+          simp [hd, this]
+      · simp [hu]
+  | up x =>
+    simp only [step, dials]
+    split
+    · simp only [getD_bump, clientsOn_filter]
+    · simp
+  | drop x =>
+    simp only [step, dials]
+    split
+    · simp only [getD_bump, clientsOn_filter]
+    · simp
+  | delete id => simp only [step, dials]; split <;> simp
+  | bcast _ _ => simp [step, dials]
+  | inject _ => simp [step, dials]
+  | down x => simp only [step, dials]; split <;> simp
+  | idle => simp [step, dials]
+
+/-- **C16 `idle_is_silent`**: real time passing changes nothing the hub holds, makes nobody dial and
+    hands nobody a message: a client whose back-off sleep ends finds either a live context and a
+    destination that still refuses, or a cancelled context (and returns). -/
+theorem idle_is_silent (s : St) : step s .idle = s ∧ dials s .idle = [] ∧ deliveries s .idle = [] :=
+  ⟨rfl, rfl, rfl⟩
+
 /-! ### non-vacuity: one concrete history exercising every clause -/
 
 def demoCfg : KV (List String) := [("stream/a", ["fa"]), ("stream/b", ["fa", "fb"])]
@@ -788,6 +959,19 @@ example :
     (s.rules.map (·.1)) = ["deleteAll\n", " ", "", "r1", "DeleteAll", " deleteAll"] ∧
     gens s.clients = [7, 6, 5, 3, 2, 1] ∧ s.cancelled = [0, 4] ∧
     lookup s.rules reserved = none ∧ orphans s = [] := by
+  decide
+
+/-- rules whose destination is down, removed / replaced / kept while down; then the destinations come up and
+    time passes: only the generations in force dial (r3 kept: 2; r2's replacement: 3), d1 never sees a connection -/
+example :
+    let pre : List Op := [.down "d1", .down "d2", .down "d3", .add "r1" "plain" "d1", .add "r2" "plain" "d2",
+                          .add "r3" "plain" "d3", .bcast "plain" none, .delete "r1", .add "r2" "plain" "d2"]
+    let s := run pre (start demoCfg)
+    s.cancelled = [1, 0] ∧ gens s.clients = [3, 2] ∧
+    (dials s (.up "d1")).map (·.gen) = [] ∧ (dials s (.up "d2")).map (·.gen) = [3] ∧
+    (dials s (.up "d3")).map (·.gen) = [2] ∧ dials s .idle = [] ∧
+    (run (pre ++ [.up "d1", .up "d2", .up "d3", .idle, .drop "d1", .drop "d2"]) (start demoCfg)).accepts
+      = [("d2", 2), ("d3", 1)] := by
   decide
 
 example : (run (demoOps ++ [.delete "deleteAll"]) (start demoCfg)).cancelled = [4, 3, 2, 1, 0] ∧
